@@ -510,12 +510,12 @@ impl Retrier {
                     Err(e) => {
                         match e {
                             AddAppointmentError::RequestError(e) => {
-                                if e.is_connection() {
-                                    log::warn!(
-                                        "{tower_id} cannot be reached. Tower will be retried later"
-                                    );
-                                    return Err(Error::transient(RetryError::Unreachable));
-                                }
+                                // Either the tower cannot be reached or its reply cannot be understood. Back off and
+                                // try again later instead of sending the same appointment right away.
+                                log::warn!(
+                                    "Request to {tower_id} failed ({e:?}). Tower will be retried later"
+                                );
+                                return Err(Error::transient(RetryError::Unreachable));
                             }
                             AddAppointmentError::ApiError(e) => match e.error_code {
                                 errors::INVALID_SIGNATURE_OR_SUBSCRIPTION_ERROR => {
